@@ -123,7 +123,9 @@ def obj_array(lst):
     return a
 
 
-NOISES = [None, 0.0, 1e-3, 0.1, 1.0, 10.0]
+NOISES = [None, 0.0, 1e-3, 0.1, 1.0, 10.0,
+          # the same quantities as the caller may hold them: not a Python float
+          1, 2, 0, np.int64(3), np.float64(0.5)]
 
 
 def case_channel(ctx, rng, idx):
@@ -222,6 +224,24 @@ def case_channel(ctx, rng, idx):
             cmp_sinr(ctx, "jp-sinr-equals-first-principles",
                      "jp" + ("-extint" if extint else ""), gotjp, wantjp,
                      nterms * K, d())
+        # ---- perfectly cancelled interference (zero-forcing joint precoders with
+        # matched filters) and no noise: the denominator is at rounding level or
+        # exactly 0, the reported SINR is huge or infinite -- never negative, never NaN
+        if not extint and not noise and int(Ns.sum()) <= ntot and r == 0:
+            Hall = np.vstack(Hk)                                   # sum(Nr) x ntot
+            if all(Ns[k] == Nr[k] for k in range(K)) and Hall.shape[0] <= ntot:
+                Pinv = np.linalg.pinv(Hall)
+                cs = np.hstack([0, np.cumsum(Nr)])
+                Fzf = obj_array([Pinv[:, cs[k]:cs[k + 1]] for k in range(K)])
+                Uzf = obj_array([np.eye(Nr[k], dtype=complex) for k in range(K)])
+                okc, gz = ctx.call("nonnegative", mu.calc_JP_SINR, Fzf, Uzf, cls="aligned-jp:raised",
+                                   detail=tag)
+                if okc:
+                    for k in range(K):
+                        g = np.asarray(gz[k], dtype=float)
+                        ctx.ev("nonnegative", bool(np.all(g >= 0)) and not np.any(np.isnan(g)),
+                               cls="aligned-jp", detail=lambda: {**tag, "user": k, "sinr": g})
+                    ctx.tally("aligned-jp-cases")
         # ---- interference covariance matrices
         for k in range(K):
             Qw = sum((Hkj[k][j] @ F[j]) @ herm(Hkj[k][j] @ F[j]) for j in range(K) if j != k)
@@ -350,6 +370,38 @@ def case_solver(ctx, rng, idx):
     ctx.sample("solver", tag)
 
 
+def case_aligned(ctx, rng, idx):
+    """Perfectly cancelled interference and no noise: zero-forcing joint
+    precoders with identity filters.  The denominator of every stream is at
+    rounding level or exactly zero; the reported SINR must be huge or infinite,
+    never negative and never NaN, with and without path loss."""
+    K = int(rng.integers(2, 5))
+    Nr = rng.integers(1, 4, size=K)
+    Nt = Nr.copy()
+    Nt[int(rng.integers(0, K))] += int(rng.integers(0, 3))          # square or wide
+    mu = MU.MultiUserChannelMatrix()
+    mu.randomize(Nr.copy(), Nt.copy(), K)
+    if rng.random() < 0.5:
+        mu.set_pathloss(10.0 ** rng.uniform(-3, 0, size=(K, K)))
+    noise = [None, 0.0, 0][int(rng.integers(0, 3))]
+    mu.noise_var = noise
+    Hall = np.asarray(mu.big_H)
+    Pinv = np.linalg.pinv(Hall)
+    cs = np.hstack([0, np.cumsum(Nr)])
+    scale = 10.0 ** rng.uniform(-2, 2, size=K)
+    Fzf = obj_array([Pinv[:, cs[k]:cs[k + 1]] * scale[k] for k in range(K)])
+    Uzf = obj_array([np.eye(Nr[k], dtype=complex) for k in range(K)])
+    tag = {"K": K, "Nr": Nr, "Nt": Nt, "noise": noise, "pathloss": mu.pathloss is not None}
+    okc, gz = ctx.call("nonnegative", mu.calc_JP_SINR, Fzf, Uzf, cls="aligned-jp:raised",
+                       detail=tag)
+    if okc:
+        for k in range(K):
+            g = np.asarray(gz[k], dtype=float)
+            ctx.ev("nonnegative", bool(np.all(g >= 0)) and not np.any(np.isnan(g)),
+                   cls="aligned-jp", n=g.size, detail=lambda: {**tag, "user": k, "sinr": g})
+        ctx.sig("aligned", K, tuple(Nr), noise is None)
+
+
 def case_capacity_fn(ctx, rng, idx):
     """calc_shannon_sum_capacity over a wide dynamic range / many streams."""
     n = int(rng.choice([1, 2, 5, 20, 100, 400]))
@@ -372,6 +424,7 @@ GENS = {
     "channel": Gen(case_channel, 700, 300000),
     "solver": Gen(case_solver, 500, 200000),
     "capacity-fn": Gen(case_capacity_fn, 200, 100000),
+    "aligned": Gen(case_aligned, 300, 60000),
 }
 MIN_EVALS = {"sinr-equals-first-principles": 2000,
              "jp-sinr-equals-first-principles": 2000,
